@@ -4,6 +4,7 @@ import numpy as np
 from mc import lattice, oracles as O, pairs
 from mc.common import TOL, U
 from mc.runner import Result
+from mc.measures import bivariate_forms
 
 ID = "C03"
 LEVEL = "model_checking"
@@ -92,6 +93,24 @@ def evaluate(r, trains, edges, max_tau, mrts, be, rank=()):
                     rank)
         return
     r.outcomes.add((tuple(ys), tuple(ms)))
+    # the same bivariate profile through the list and `indices` call forms
+    try:
+        for fname, q in bivariate_forms(spk.spike_sync_profile, st1, st2, edges,
+                                        max_tau=max_tau, MRTS=mrts):
+            qy, qm = np.asarray(q.y, float), np.asarray(q.mp, float)
+            if list(np.asarray(q.x, float)) != xf or list(qy[1:-1]) != [float(v) for v in ys] or \
+                    list(qm[1:-1]) != [float(v) for v in ms]:
+                r.violation(ID, "sync_profile.form", be,
+                            "sync_profile.form/%s/%s/%s" % (be, tag, cls), dict(case, form=fname),
+                            {"y": ys, "mp": ms}, {"x": q.x, "y": qy[1:-1], "mp": qm[1:-1]},
+                            "the profile of the two trains obtained through call form %s differs "
+                            "from the definition" % fname, rank)
+                return
+    except Exception as e:
+        r.violation(ID, "sync_profile.form", be, "sync_profile.form.exception/%s/%s" % (be, cls),
+                    case, "a profile", "%s: %s" % (type(e).__name__, e),
+                    "a list / indices call form raised", rank)
+        return
     # scalar
     try:
         v = float(spk.spike_sync(st1, st2, max_tau=max_tau, MRTS=mrts))
